@@ -232,6 +232,22 @@ def _short_shard(shard):
     return count, bad
 
 
+def _table_shard(mults):
+    loader.install_shims()
+    count, bad = 0, []
+    for mult in mults:
+        for v in range(256):
+            for data in (bytes((v, mult)), bytes((mult, v, 0)), bytes((1 if mult > 1 else 0, v, mult, 0))):
+                count += 1
+                w = check_swap(data, mult)
+                if w and len(bad) < 3:
+                    bad.append(({"fn": "swap", "data": data, "mult": mult}, w))
+    return count, bad
+
+
+BIG_MULTS = (256, 257, 511, 512, 1000, 65535, 65536, 2**31, 2**40 + 255)
+
+
 def _pattern_shard(shard):
     """Every divisibility pattern of length <= maxlen realised with distinct marks for each multiple."""
     mults, maxlen = shard
@@ -239,7 +255,10 @@ def _pattern_shard(shard):
     count, bad = 0, []
     for mult in mults:
         if mult <= 0 or mult > 255:
-            multiples, nons = [0], [1, 2, 3, 5, 7, 11, 13, 17, 19, 23]
+            # beyond 255 the only multiple a byte can be is 0: the non-multiples start at the top of the byte range and
+            # at the residues a reduced multiple would single out
+            multiples = [0]
+            nons = list(dict.fromkeys([255, mult % 256 or 1, 254, 128, (mult >> 8) % 256 or 2, 1, 2, 3, 5, 7, 11, 13, 17, 19, 23]))
         else:
             multiples = list(range(0, 256, mult))
             nons = [x for x in range(256) if x % mult != 0]
@@ -281,8 +300,20 @@ def run(tier, seed):
     sa = (0, 1, 2, 3, 4, 6, 9)
     results += par.pmap(_short_shard, [([p], sa, 6 if quick else 7, "swap") for p in itertools.product(sa, repeat=1)])
     results.append(_short_shard(([()], (), 0, "swap")))
-    mults = list(range(1, 256)) + [256, 1000]
+    mults = list(range(1, 256)) + list(BIG_MULTS)
     results += par.pmap(_pattern_shard, [(c, 10 if quick else 12) for c in par.chunks(mults, W * 2)])
+    # multiples beyond the byte range: every byte value 1..255 is a non-multiple and must stay where it is next to zeros
+    bigc, bigbad = 0, []
+    for mult in BIG_MULTS:
+        for v in range(1, 256):
+            for data in (bytes((0, v)), bytes((v, 0)), bytes((0, v, 0, 0)), bytes((v, v, 0)), bytes((0, 0, v))):
+                bigc += 1
+                w = check_swap(data, mult)
+                if w and len(bigbad) < 3:
+                    bigbad.append(({"fn": "swap", "data": data, "mult": mult}, w))
+    results.append((bigc, bigbad))
+    # the whole divisibility table: every (multiple 1..255, byte value) pair next to a certain multiple
+    results += par.pmap(_table_shard, par.chunks(list(range(1, 256)), W))
     # negative multiples
     negc, negbad = 0, []
     for mult in (-1, -2, -255, -1000):
@@ -311,7 +342,7 @@ def run(tier, seed):
         "evaluations": evals,
         "distinct_nontrivial": evals - 3,
         "interleave_max_len": max_perm_len,
-        "swap_multiples_multiples": "0..9 on all strings over {0,1,2,3,4,6,9}; 1..255, 256, 1000 on all divisibility patterns; negatives rejected",
+        "swap_multiples_multiples": "0..9 on all strings over {0,1,2,3,4,6,9}; 1..255 and nine multiples beyond the byte range (256..2**40+255) on all divisibility patterns; beyond 255 also every byte value 1..255 next to zeros; every (multiple 1..255, byte value 0..255) pair next to known multiples; negatives rejected",
         "exhaustive": True,
         "rule": (
             "interleave/deinterleave: every length 0..interleave_max_len with 3 fillings (index marks mod 251 / mod 256 / "
